@@ -238,19 +238,19 @@ func printResult(r *FuncResult, verbose bool) {
 // ---------------------------------------------------------------------------
 
 type PropRun struct {
-	Prop     string
-	Tier     string
-	Seed     int
-	Wall     float64
-	Funcs    []*FuncResult
-	Extra    []*Obligation // obligations from other back ends (FRAME, lemmas)
-	Notes    []string
-	Trusted  map[string]bool
-	Bounded  []string
-	WorkDir  string
-	Known    []knownHit
-	Failures []*Obligation
-	Repo     string
+	Prop      string
+	Tier      string
+	Seed      int
+	Wall      float64
+	Funcs     []*FuncResult
+	Extra     []*Obligation // obligations from other back ends (FRAME, lemmas)
+	Notes     []string
+	Trusted   map[string]bool
+	Bounded   []string
+	WorkDir   string
+	Known     []knownHit
+	Failures  []*Obligation
+	Repo      string
 	KnownHits []string
 }
 
@@ -318,23 +318,31 @@ func runProperty(l *loaded, prop, tier string, timeout int, work string, verbose
 			o := &Obligation{Name: "subset/" + k, Kind: "subset", Fn: k, Props: []string{prop}, Status: "unknown", Src: "function left the supported subset: " + r.Unsup}
 			run.Extra = append(run.Extra, o)
 		}
+		if os.Getenv("GOVC_NOCLOSURE") == "" {
+			for _, u := range r.Used {
+				{
+					// a callee's contract is assumed as a whole at the call site, so all its clauses count for this
+					// property, whether or not some of them are tagged with it (GOVC_TAGGEDONLY=1 restores the old,
+					// smaller runs where a callee that mentions the property contributes its tagged clauses only)
+					if !contractMentions(l.contracts.Funcs[u], prop) || inherited[k] || os.Getenv("GOVC_TAGGEDONLY") == "" {
+						inherited[u] = true
+					}
+					if !done[u] {
+						queue = append(queue, u)
+					}
+				}
+			}
+		}
+	}
+	// second pass (the inherited flags are complete now, whatever the order in which functions were met)
+	for _, r := range run.Funcs {
 		for _, o := range r.Obls {
-			if inherited[k] && !hasProp(o.Props, prop) {
+			if inherited[r.Key] && !hasProp(o.Props, prop) {
 				o.Props = append(append([]string{}, o.Props...), prop)
 				o.Inherited = true
 			}
 			if hasProp(o.Props, prop) {
 				obls = append(obls, o)
-			}
-		}
-		if os.Getenv("GOVC_NOCLOSURE") == "" {
-			for _, u := range r.Used {
-				if !done[u] {
-					if !contractMentions(l.contracts.Funcs[u], prop) || inherited[k] {
-						inherited[u] = true
-					}
-					queue = append(queue, u)
-				}
 			}
 		}
 	}
@@ -505,20 +513,20 @@ func writeEvidence(p *PropRun, path string) error {
 		"seed":        p.Seed,
 		"level":       "proof",
 		"coverage": map[string]interface{}{
-			"obligations":              len(all),
-			"discharged":               nproved,
-			"checker_cmd":              fmt.Sprintf("/verif/bin/govc -repo /repo -prop %s -tier %s (VCs from go/ssa of the working tree + /repo/verif_contracts.go; z3-new 5.1.0 first, z3 4.8.12 and cvc5 1.0 raced on unknown)", p.Prop, p.Tier),
-			"trusted_base":             trusted,
-			"functions_under_contract": fns,
-			"functions_out_of_subset":  unsup,
-			"obligations_by_kind":      byKind,
-			"obligations_by_solver":    bySolver,
-			"solver_time_s":            round3(solverTime),
-			"samples":                  samples,
-			"obligation_list":          oblList,
-			"bounded_stand_ins":        p.Bounded,
+			"obligations":               len(all),
+			"discharged":                nproved,
+			"checker_cmd":               fmt.Sprintf("/verif/bin/govc -repo /repo -prop %s -tier %s (VCs from go/ssa of the working tree + /repo/verif_contracts.go; z3-new 5.1.0 first, z3 4.8.12 and cvc5 1.0 raced on unknown)", p.Prop, p.Tier),
+			"trusted_base":              trusted,
+			"functions_under_contract":  fns,
+			"functions_out_of_subset":   unsup,
+			"obligations_by_kind":       byKind,
+			"obligations_by_solver":     bySolver,
+			"solver_time_s":             round3(solverTime),
+			"samples":                   samples,
+			"obligation_list":           oblList,
+			"bounded_stand_ins":         p.Bounded,
 			"known_finding_obligations": knownObls,
-			"notes":                    p.Notes,
+			"notes":                     p.Notes,
 		},
 		"assumptions": append([]string{
 			"integers are mathematical (no overflow obligations); floats are reals; strings are SMT strings (valid Unicode)",
